@@ -103,6 +103,34 @@ bool run_ext(Ctx &C, const std::string &cmd, Toks &T, long seq) {
     else if (meth == "kokkevis") ForwardDynamicsContactsKokkevis(m, q, qd, tau, cs, qdd);
     out.line(seq, "qdd", qdd); out.line(seq, "force", cs.force); return true;
   }
+  if (cmd == "actuation") {
+    bind(C); long k = T.integer(); std::vector<bool> a; for (long i = 0; i < k; i++) a.push_back(T.integer() != 0);
+    E(C).cs.SetActuationMap(m, a); return true;
+  }
+  if (cmd == "idc") {
+    bind(C); std::string meth = T.str(); bool feas = false, feasacc = false;
+    while (T.t[T.i] == "feas" || T.t[T.i] == "feasacc") { if (T.str() == "feas") feas = true; else feasacc = true; }
+    VectorNd q = T.vec(), qd = T.vec(), qdes = T.vec(); std::vector<SpatialVector> *fe = C.fext(T);
+    if (feas) qd = project(C, q, qd);
+    ConstraintSet &cs = E(C).cs;
+    if (feasacc) {   // a desired acceleration consistent with the constraints: qdes - G^T (G G^T)^+ (G qdes - gamma)
+      CalcConstrainedSystemVariables(m, q, qd, VectorNd::Zero(m.qdot_size), cs, true, fe);
+      MatrixNd G = cs.G; VectorNd gam = cs.gamma;
+      qdes = qdes - G.transpose() * solve_consistent(G * G.transpose(), G * qdes - gam);
+    }
+    VectorNd qdd = VectorNd::Zero(m.qdot_size), tau = VectorNd::Zero(m.qdot_size);
+    try {
+      if (meth == "exact") InverseDynamicsConstraints(m, q, qd, qdes, cs, qdd, tau, true, fe);
+      else InverseDynamicsConstraintsRelaxed(m, q, qd, qdes, cs, qdd, tau, true, fe);
+      out.line(seq, "qdd", qdd); out.line(seq, "tauc", tau); out.line(seq, "force", cs.force);
+    } catch (Errors::RBDLError &e) { out.begin(seq, "status"); out.s("throw"); out.end(); }
+    return true;
+  }
+  if (cmd == "fullact") {
+    bind(C); VectorNd q = T.vec(), qd = T.vec(); std::vector<SpatialVector> *fe = C.fext(T);
+    bool r = isConstrainedSystemFullyActuated(m, q, qd, E(C).cs, true, fe);
+    out.begin(seq, "fullact"); out.u(r ? 1 : 0); out.end(); return true;
+  }
   if (cmd == "imp") {
     bind(C); std::string meth = T.str(); VectorNd q = T.vec(), qdm = T.vec(), vp = T.vec(); ConstraintSet &cs = E(C).cs;
     for (int k = 0; k < vp.size() && k < cs.v_plus.size(); k++) cs.v_plus[k] = vp[k];
